@@ -252,6 +252,13 @@ class Interp:
         if name in s.m.funcs or name in s.m.decls: return FnPtr(name)
         if name in ('@_ZSt4cout', '@_ZSt4cerr', '@_ZSt4clog'):
             r = make_ostream(s, name); s.gaddr[name] = r; return r
+        if name.startswith('@_ZTTNSt7__cxx11') and 'stringstream' in name:
+            # VTT of the string streams (inlined destructors): basic_ios at 128 (stringstream), 112 (ostringstream), 120 (istringstream)
+            off = 112 if 'basic_ostringstream' in name else (120 if 'basic_istringstream' in name else 128)
+            vt = s.alloc(128, name + '-vtable(model)'); s.zerofill(vt, 128); s.store(Ptr(vt.obj, 64 - 24), off, 8)
+            r = s.alloc(128, name + '(model)')
+            for k in range(16): s.store(Ptr(r.obj, 8 * k), Ptr(vt.obj, 64), 8)
+            s.gaddr[name] = r; return r
         if name.startswith('@_ZTTSt14basic_ofstream') or name.startswith('@_ZTTSt14basic_ifstream'):
             # VTT of the file streams (used by their inlined destructors): every entry points to a vtable whose
             # virtual-base offset is that of basic_ios inside the stream object (libstdc++ x86-64: 248 / 256)
@@ -883,7 +890,10 @@ class Interp:
         if n.startswith('llvm.floor') or n.startswith('llvm.round') or n.startswith('llvm.ceil') or n.startswith('llvm.trunc'):
             x = a[0]; kind = n.split('.')[1]
             if is_sym(x):
-                k = s.newsym(kind, 'int'); kr = z3.ToReal(k)
+                rc_ = s.__dict__.setdefault('_round_cache', {})
+                hit = rc_.get((kind, x.get_id()))        # the same rounding of the same expression is the same integer (AST kept alive)
+                if hit is not None: return hit[1]
+                k = s.newsym(kind, 'int'); kr = z3.ToReal(k); rc_[(kind, x.get_id())] = (x, kr)
                 if kind == 'floor': s.assume(z3.And(kr <= x, x < kr + 1))
                 elif kind == 'round': s.assume(z3.If(x >= 0, z3.And(kr <= x + 0.5, x + 0.5 < kr + 1), z3.And(kr - 1 < x - 0.5, x - 0.5 <= kr)))
                 else: raise Unsupported(n)
